@@ -126,7 +126,6 @@ theorem fs_pending (ops : List (Op ι δ)) (pos : Nat) (op : Op ι δ) (ser size
 
 /-! ## non-vacuity and witnesses (ids and documents are naturals, projection = identity) -/
 
-def cfgId : Cfg Nat := { proj := id, safe := true, reingestOk := fun _ => true }
 
 /-- stale cached live map after a delete-only commit of another handle (generation unchanged):
 handle 1 still believes id 7 is live, commits an upsert of 7 and an add of 8 — one copy each -/
